@@ -229,9 +229,26 @@ func run(sc *Scenario, scratch string) {
 		defer followClient.Close()
 		o := &zenodb.DBOpts{Dir: filepath.Join(base, fmt.Sprintf("follower%d", p)), VirtualTime: true, ID: 10 + p, Partition: p,
 			NumPartitions: sc.Partitions, IterationCoalesceInterval: time.Millisecond, Panic: func(interface{}) {}}
+		var followMx sync.Mutex
+		var stopFollow context.CancelFunc
+		var followDone chan struct{}
 		o.Follow = func(mk func(sources []int) map[int]*common.Follow, insert func(data []byte, newOffset wal.Offset, source int) error) {
+			// the database asks again when further tables subscribe (the start-up timers are
+			// shortened here): one stream at a time, the previous one ends first - two streams
+			// with different progress would overtake each other in the follower's offsets
+			followMx.Lock()
+			defer followMx.Unlock()
+			if stopFollow != nil {
+				stopFollow()
+				<-followDone
+			}
+			fctx, cancelF := context.WithCancel(ctx)
+			stopFollow, followDone = cancelF, make(chan struct{})
+			done := followDone
 			fo := mk([]int{1})[1]
 			go func() {
+				defer close(done)
+				ctx := fctx
 				for ctx.Err() == nil {
 					source, next, err := followClient.Follow(ctx, fo)
 					if err != nil {
